@@ -80,14 +80,38 @@ def validate(recorded, env=True, fuel=60000, workers=12, timeout=900, tag="trace
         index.append(rec)
     if not cases:
         return [], skipped, None
-    path = os.path.join(common.VERIF, "work", "%s_%d.ndjson" % (tag, os.getpid()))
-    tlc.write_ndjson(path, cases)
-    r = tlc.run("lang/LangTrace.tla", "lang/LangTrace.cfg", workers=workers, env={"CASES": path, "FUEL": fuel}, timeout=timeout, coverage=False)
-    os.remove(path)
-    if r.timed_out or r.rc != 0:
-        raise common.ToolError("LangTrace failed rc=%s %s\n%s" % (r.rc, r.errors[:3], "\n".join(r.tail[-12:])))
-    verdicts = {v["i"]: v for v in r.records if v.get("tag") == "VERDICT"}
+    # TLC computes the initial states (one per trace) on one thread: large batches are split into chunks,
+    # each validated by its own TLC process (three at a time)
+    CH = 1000
+    chunks = [cases[k:k + CH] for k in range(0, len(cases), CH)]
+    results = [None] * len(chunks)
+
+    def one(ci):
+        path = os.path.join(common.VERIF, "work", "%s_%d_%d.ndjson" % (tag, os.getpid(), ci))
+        tlc.write_ndjson(path, chunks[ci])
+        try:
+            results[ci] = tlc.run("lang/LangTrace.tla", "lang/LangTrace.cfg", workers=max(2, workers // min(3, len(chunks))),
+                                  env={"CASES": path, "FUEL": fuel}, timeout=timeout, coverage=False)
+        finally:
+            os.remove(path)
+    import concurrent.futures
+    with concurrent.futures.ThreadPoolExecutor(max_workers=3) as ex:
+        list(ex.map(one, range(len(chunks))))
+    verdicts = {}
+    total = None
+    for ci, r in enumerate(results):
+        if r is None or r.timed_out or r.rc != 0:
+            raise common.ToolError("LangTrace failed (chunk %d of %d) rc=%s %s\n%s" % (ci + 1, len(chunks), getattr(r, "rc", None), getattr(r, "errors", [])[:3], "\n".join(getattr(r, "tail", [])[-12:])))
+        for v in r.records:
+            if v.get("tag") == "VERDICT":
+                verdicts[ci * CH + v["i"]] = v
+        if total is None:
+            total = r
+        else:
+            total.distinct += r.distinct
+            total.generated += r.generated
+            total.wall += r.wall
     out = []
     for j, rec in enumerate(index):
         out.append((rec, verdicts.get(j + 1, {"verdict": "missing"}), cases[j]))
-    return out, skipped, r
+    return out, skipped, total
